@@ -18,6 +18,39 @@ CLAIMED = {
         technique="TLA+/PlusCal model checked by TLC + spec-to-code replay of every terminal state",
         design_ref="DESIGN.md §4.5, §5 C15",
     ),
+    "C16": dict(
+        text="TLC exhaustively explores XformEncode.tla (one action per branch of paint.transformed plus the fontTools compile gate) on a "
+             "boundary-value lattice of affines expressed in dual numbers (exact-== vs almost_equal distinguishable), checking Denotes, "
+             "GuardsSufficient, NoSilentWrap and totality; GradXform.tla checks the uniform/residual split (T = R o U, U a similarity, "
+             "circles stay circles, no silent overflow).  Every terminal state is one implementation test (class, in-memory denotation, COLR "
+             "compile/decompile judged by an independent reading of the OpenType paints), plus thousands of random affines and gradients whose "
+             "colours at corresponding points are compared by an independent evaluator.",
+        note="Trusted: TLC, fontTools COLR (de)compilation as the reference for field ranges, the independent gradient evaluator (written from "
+             "the COLRv1 spec).  Continuous inputs are sampled; the lattice is exhaustive only over its stated values.",
+        technique="TLA+ transcription of the encoder model-checked by TLC; one implementation test per model state (spec-to-code replay)",
+        design_ref="DESIGN.md §4.6, §5 C16",
+    ),
+    "C09": dict(
+        text="Build.tla models the build directory (mtime ranks, .ninja_log, command hashes, content terms), the driver phases and ninja's "
+             "dirtiness rules, with faults (step fails / killed after truncated output / driver killed before or while writing build.ninja).  "
+             "It is instantiated on the ninja graphs the real driver writes for every world of a small family (B3, extracted at check time, "
+             "read sets measured with strace) and TLC enumerates all histories within the bounds for FreshOK/AllFresh/FailStop, all schedules of "
+             "one invocation, and liveness under fairness.  Sampled model histories are replayed on the real CLI: exit status, executed-edge set "
+             "(validates the ninja model) and sha256(font) against a clean build.",
+        note="Trusted: TLC, ninja, strace; content-term abstraction (a step's output is a function of the files it reads).  The mtime limitation "
+             "(content changes without a newer mtime) is reproduced every run and reported as a known finding, not a violation.",
+        technique="TLA+ model of driver+ninja+faults on graphs extracted from the code, model-checked by TLC; model histories replayed on the real CLI",
+        design_ref="DESIGN.md §4.1, §5 C09",
+    ),
+    "C17": dict(
+        text="Defects.tla enumerates defect class x format family x argument position x valid neighbours through the pipeline's gates "
+             "(AmbiguityStops); every scenario is run in-process through write_font._generate_color_font and a covering sample (thorough: all) "
+             "through the real CLI, judged by exit status and absence of a freshly written font; Build.tla FailStop/NoFreshFontOnFailure are "
+             "model-checked on the extracted graphs for every fault placement and schedule.",
+        note="Each defect class is represented by one concrete instance; glyphmap generators other than the default are out of scope.",
+        technique="TLA+ gate model + Build.tla fail-stop invariants checked by TLC; scenarios replayed on the real CLI and in-process",
+        design_ref="DESIGN.md §4.4, §5 C17",
+    ),
 }
 
 NOT_YET = "check not built yet in this round; will be claimed once its TLA+ module and conformance harness exist"
